@@ -7,6 +7,9 @@ package main
 // byte-array slices, arithmetic / comparison / boolean / bit operators, conversions between
 // integer types, calls of other translatable functions of the repo (translated on demand),
 // struct literals, composite literals of slices/maps (as lists), len of strings/arrays.
+// Also: time.Time / netip.Addr values and their comparison methods (modelled by Base/GoStd.lean),
+// == / != on structs all of whose fields are modelled, function-typed results given as function
+// literals (-> Lean lambdas), and a trailing panic() (the function then returns Option).
 // Anything else is an extraction error (= broken tie, reported by bin/check).
 //
 // Semantics chosen (recorded in the trusted base):
@@ -40,10 +43,36 @@ type Tr struct {
 	results []*types.Var // named results of the function being translated
 	curPkg  *Pkg
 	curFn   *types.Signature
+	optRet  bool            // the function being translated may panic: results are wrapped in Option
+	panics  map[string]bool // func key -> translated with an Option result
+	imports map[string]bool // extra Lean imports needed by the generated file
+}
+
+// extType maps the few standard-library value types that have a hand-written Lean model
+// (lean/GoProbeModel/Base/GoStd.lean) to their Lean names.
+func extType(ty types.Type) string {
+	n, ok := ty.(*types.Named)
+	if !ok || n.Obj().Pkg() == nil {
+		return ""
+	}
+	switch n.Obj().Pkg().Path() + "." + n.Obj().Name() {
+	case "time.Time":
+		return "GoStd.Time"
+	case "net/netip.Addr":
+		return "GoStd.Addr"
+	}
+	return ""
+}
+
+// extMethods lists the modelled methods of the external types
+var extMethods = map[string]bool{
+	"GoStd.Time.Before": true, "GoStd.Time.After": true, "GoStd.Time.Equal": true,
+	"GoStd.Addr.Less": true, "GoStd.Addr.IsValid": true,
 }
 
 func NewTr(l *Loader, ns string) *Tr {
-	return &Tr{l: l, ns: ns, done: map[string]string{}, inProg: map[string]bool{}, Assume: map[string]bool{}}
+	return &Tr{l: l, ns: ns, done: map[string]string{}, inProg: map[string]bool{}, Assume: map[string]bool{},
+		panics: map[string]bool{}, imports: map[string]bool{}}
 }
 
 type trErr struct{ msg string }
@@ -83,7 +112,20 @@ func (t *Tr) leanType(ty types.Type, pos token.Pos) string {
 	if isByteSeq(ty) {
 		return "(Nat → Nat)"
 	}
+	if e := extType(ty); e != "" {
+		t.imports["GoProbeModel.Base.GoStd"] = true
+		t.Assume["time.Time / netip.Addr are modelled by GoStd.Time (instant, location id) / GoStd.Addr (bit length, value, zone); == is structural, Before/After/Equal compare the instant, Addr.Less is netip's Compare order"] = true
+		return e
+	}
 	switch u := ty.Underlying().(type) {
+	case *types.Signature:
+		if u.Recv() == nil && !u.Variadic() && u.Results().Len() == 1 && u.Params().Len() > 0 {
+			var ps []string
+			for i := 0; i < u.Params().Len(); i++ {
+				ps = append(ps, t.leanType(u.Params().At(i).Type(), pos))
+			}
+			return "(" + strings.Join(ps, " → ") + " → " + t.leanType(u.Results().At(0).Type(), pos) + ")"
+		}
 	case *types.Basic:
 		switch {
 		case u.Info()&types.IsBoolean != 0:
@@ -165,6 +207,9 @@ func (t *Tr) structFor(n *types.Named, pos token.Pos) string {
 func (t *Tr) zero(ty types.Type, pos token.Pos) string {
 	if isByteSeq(ty) {
 		return "(fun _ => 0)"
+	}
+	if e := extType(ty); e != "" {
+		return "(default : " + e + ")"
 	}
 	switch u := ty.Underlying().(type) {
 	case *types.Basic:
@@ -336,11 +381,58 @@ func (t *Tr) prop(e ast.Expr) string {
 		case token.LOR:
 			return "(" + t.prop(x.X) + " ∨ " + t.prop(x.Y) + ")"
 		case token.EQL, token.NEQ, token.LSS, token.LEQ, token.GTR, token.GEQ:
+			t.checkComparable(t.typeOf(x.X), x.Pos())
 			op := map[token.Token]string{token.EQL: "=", token.NEQ: "≠", token.LSS: "<", token.LEQ: "≤", token.GTR: ">", token.GEQ: "≥"}[x.Op]
 			return "(" + t.expr(x.X) + " " + op + " " + t.expr(x.Y) + ")"
 		}
 	}
 	return "(" + t.expr(e) + " = true)"
+}
+
+// checkComparable refuses == / != on structs of which some field is not modelled (the Lean
+// structure would then identify values Go distinguishes).
+func (t *Tr) checkComparable(ty types.Type, pos token.Pos) {
+	if extType(ty) != "" {
+		return
+	}
+	if st, ok := ty.Underlying().(*types.Struct); ok {
+		for i := 0; i < st.NumFields(); i++ {
+			f := st.Field(i)
+			if !t.translatableType(f.Type()) {
+				t.fail(pos, "comparison of struct %s whose field %s is not modelled", ty, f.Name())
+			}
+			t.checkComparable(f.Type(), pos)
+		}
+	}
+}
+
+// funcLit translates a function literal (a closure over immutable locals) to a Lean lambda.
+func (t *Tr) funcLit(x *ast.FuncLit) string {
+	sig, ok := t.typeOf(x).Underlying().(*types.Signature)
+	if !ok || sig.Results().Len() != 1 || sig.Params().Len() == 0 {
+		t.fail(x.Pos(), "unsupported function literal shape")
+	}
+	ast.Inspect(x.Body, func(n ast.Node) bool {
+		switch n.(type) {
+		case *ast.AssignStmt, *ast.IncDecStmt, *ast.GoStmt, *ast.DeferStmt, *ast.ForStmt, *ast.RangeStmt:
+			t.fail(n.Pos(), "function literal with assignments/loops is not supported")
+		}
+		return true
+	})
+	savedFn, savedRes, savedOpt := t.curFn, t.results, t.optRet
+	t.curFn, t.results, t.optRet = sig, nil, false
+	var ps []string
+	for i := 0; i < sig.Params().Len(); i++ {
+		v := sig.Params().At(i)
+		if v.Name() == "" || v.Name() == "_" {
+			ps = append(ps, fmt.Sprintf("(_ : %s)", t.leanType(v.Type(), x.Pos())))
+		} else {
+			ps = append(ps, fmt.Sprintf("(%s : %s)", t.nameOf(v), t.leanType(v.Type(), x.Pos())))
+		}
+	}
+	body := t.stmts(x.Body.List, 4)
+	t.curFn, t.results, t.optRet = savedFn, savedRes, savedOpt
+	return "(fun " + strings.Join(ps, " ") + " =>\n" + body + ")"
 }
 
 func (t *Tr) expr(e ast.Expr) string {
@@ -415,6 +507,8 @@ func (t *Tr) expr(e ast.Expr) string {
 		return t.call(x)
 	case *ast.CompositeLit:
 		return t.composite(x)
+	case *ast.FuncLit:
+		return t.funcLit(x)
 	case *ast.BasicLit:
 		t.fail(x.Pos(), "literal without constant value")
 	}
@@ -635,10 +729,22 @@ func (t *Tr) call(c *ast.CallExpr) string {
 		t.Assume["(time.Duration).Seconds() is modelled as truncating integer division by 10^9 (exact for whole-second durations below 2^53 ns)"] = true
 		return "(Int.tdiv " + t.expr(recv) + " 1000000000)"
 	}
+	if recv != nil {
+		if e := extType(t.typeOf(recv)); e != "" && extMethods[e+"."+fobj.Name()] {
+			args := []string{t.expr(recv)}
+			for _, a := range c.Args {
+				args = append(args, t.expr(a))
+			}
+			return "(" + e + "." + fobj.Name() + " " + strings.Join(args, " ") + ")"
+		}
+	}
 	if fobj.Pkg() == nil || !strings.HasPrefix(fobj.Pkg().Path(), repoModule) {
 		t.fail(c.Pos(), "call to non-repo function %s", fobj.FullName())
 	}
 	name := t.funcFor(fobj, c.Pos())
+	if t.panics["func:"+funcKey(fobj)] {
+		t.fail(c.Pos(), "call to %s, which may panic (Option result), is not supported", fobj.Name())
+	}
 	var args []string
 	if recv != nil {
 		args = append(args, t.expr(recv))
@@ -755,7 +861,18 @@ func (t *Tr) elt(e ast.Expr) string {
 
 // ---------------------------------------------------------------- statements
 
+func (t *Tr) wrapRet(v string) string {
+	if t.optRet {
+		return "(some " + v + ")"
+	}
+	return v
+}
+
 func (t *Tr) retNamed(pos token.Pos) string {
+	return t.wrapRet(t.retNamed0(pos))
+}
+
+func (t *Tr) retNamed0(pos token.Pos) string {
 	if len(t.results) == 0 {
 		if t.curFn.Results().Len() == 0 {
 			return "()"
@@ -792,9 +909,9 @@ func (t *Tr) stmts(ss []ast.Stmt, d int) string {
 			rs = append(rs, v)
 		}
 		if len(rs) == 1 {
-			return ind(d) + rs[0]
+			return ind(d) + t.wrapRet(rs[0])
 		}
-		return ind(d) + "(" + strings.Join(rs, ", ") + ")"
+		return ind(d) + t.wrapRet("("+strings.Join(rs, ", ")+")")
 	case *ast.BlockStmt:
 		return t.stmts(append(append([]ast.Stmt{}, x.List...), rest...), d)
 	case *ast.EmptyStmt:
@@ -836,6 +953,11 @@ func (t *Tr) stmts(ss []ast.Stmt, d int) string {
 		if c, ok := x.X.(*ast.CallExpr); ok {
 			if id, ok := c.Fun.(*ast.Ident); ok && id.Name == "copy" && len(c.Args) == 2 {
 				return t.copyStmt(c, d) + "\n" + t.stmts(rest, d)
+			}
+			if id, ok := c.Fun.(*ast.Ident); ok && id.Name == "panic" && t.optRet {
+				if _, isB := t.info().Uses[id].(*types.Builtin); isB {
+					return ind(d) + "none"
+				}
 			}
 		}
 		t.fail(x.Pos(), "unsupported expression statement")
@@ -1085,6 +1207,7 @@ func (t *Tr) Func(p *Pkg, fd *ast.FuncDecl, leanName string) string {
 	t.done[key] = leanName
 	t.inProg[key] = true
 	saved := t.save()
+	savedOpt := t.optRet
 	t.curPkg = p
 	t.curFn = sig
 	t.names = map[types.Object]string{}
@@ -1124,6 +1247,28 @@ func (t *Tr) Func(p *Pkg, fd *ast.FuncDecl, leanName string) string {
 	} else if len(rts) > 1 {
 		rt = strings.Join(rts, " × ")
 	}
+	// a function whose own body (outside function literals) calls panic() returns Option
+	t.optRet = false
+	var findPanic func(n ast.Node) bool
+	findPanic = func(n ast.Node) bool {
+		switch x := n.(type) {
+		case *ast.FuncLit:
+			return false
+		case *ast.CallExpr:
+			if id, ok := x.Fun.(*ast.Ident); ok && id.Name == "panic" {
+				if _, isB := p.Info.Uses[id].(*types.Builtin); isB {
+					t.optRet = true
+				}
+			}
+		}
+		return true
+	}
+	ast.Inspect(fd.Body, findPanic)
+	if t.optRet {
+		rt = "Option (" + rt + ")"
+		t.panics[key] = true
+		t.Assume["a function that calls panic() returns Option; none = the Go function panics"] = true
+	}
 	body := t.stmts(fd.Body.List, 1)
 	if len(pre) > 0 {
 		body = strings.Join(pre, "\n") + "\n" + body
@@ -1132,6 +1277,7 @@ func (t *Tr) Func(p *Pkg, fd *ast.FuncDecl, leanName string) string {
 	rel := strings.TrimPrefix(pos.Filename, t.l.Root+"/")
 	item := fmt.Sprintf("/-- Go: func %s (%s) -/\ndef %s %s : %s :=\n%s\n", strings.TrimPrefix(funcKey(fobj), repoModule+"/"), rel, leanName, strings.Join(params, " "), rt, body)
 	t.restore(saved)
+	t.optRet = savedOpt
 	delete(t.inProg, key)
 	t.out = append(t.out, item)
 	return leanName
@@ -1179,6 +1325,14 @@ func (t *Tr) Render(header string) string {
 	var b strings.Builder
 	b.WriteString("-- GENERATED by /verif/extract from /repo — do not edit; regenerated on every check run\n")
 	b.WriteString(header)
+	var imps []string
+	for i := range t.imports {
+		imps = append(imps, i)
+	}
+	sort.Strings(imps)
+	for _, i := range imps {
+		b.WriteString("import " + i + "\n")
+	}
 	b.WriteString("set_option linter.unusedVariables false\n\n")
 	b.WriteString("namespace " + t.ns + "\n\n")
 	for _, it := range t.out {
